@@ -444,3 +444,42 @@ func c03AssignsPosOnEOF(fd *ast.FuncDecl) bool {
 	})
 	return res
 }
+
+// c03MentionsBothBounds: the code below n (helpers of the package followed) refers to both selectors a and b
+// (e.g. `MinTs`/`MaxTs` of the time range, `minPos`/`maxPos` of a chunk status) — no local names, no operand order.
+func c03MentionsBoth(p *c03pkg, n ast.Node, a, b string) bool {
+	fa, fb := false, false
+	p.walk(n, func(m ast.Node) bool {
+		if se, ok := m.(*ast.SelectorExpr); ok {
+			if se.Sel.Name == a {
+				fa = true
+			}
+			if se.Sel.Name == b {
+				fb = true
+			}
+		}
+		return true
+	})
+	return fa && fb
+}
+
+// c03RechecksRange: `fiterator.Get` decides on both bounds of the time range (directly or through a helper such as
+// fitInRange): every event the iterator below hands over is re-checked against the range.
+func c03RechecksRange(p *c03pkg, fd *ast.FuncDecl) bool { return c03MentionsBoth(p, fd.Body, "MinTs", "MaxTs") }
+
+// c03NextLeavesWindow: `partition.JIterator.Next` has a branch whose condition looks at both ends of the chunk window
+// (minPos, maxPos) and which moves on to another chunk (calls advanceChunk, helpers followed).
+func c03NextLeavesWindow(p *c03pkg, fd *ast.FuncDecl) bool {
+	res := false
+	p.walk(fd.Body, func(n ast.Node) bool {
+		is, ok := n.(*ast.IfStmt)
+		if !ok {
+			return true
+		}
+		if c03MentionsBoth(p, is.Cond, "minPos", "maxPos") && p.hasCall(is.Body, "advanceChunk", "") {
+			res = true
+		}
+		return true
+	})
+	return res
+}
